@@ -64,7 +64,7 @@ class Check:
         qs = [q for q in self.queries if q.tier == 'quick' or (tier == 'thorough' and q.tier != 'deep') or tier == 'deep']
         known, fixed = load_known()
         cap_t, cap_m = TIER_CAPS[tier]
-        jobs = self.jobs or int(os.environ.get('VERIF_JOBS', '8'))
+        jobs = int(os.environ['VERIF_JOBS']) if os.environ.get('VERIF_JOBS') else (self.jobs or 8)     # schedule-enumeration checks (hundreds of small runs) ask for 14 of the 16 cores
         fp = pl.repo_fingerprint()
 
         # 1. build units
